@@ -1,6 +1,6 @@
 use std::any::Any;
 use std::cell::RefCell;
-use std::collections::HashMap;
+use std::collections::{BTreeMap, HashMap};
 use std::mem::ManuallyDrop;
 use std::rc::Rc;
 use std::sync::Arc;
@@ -13,12 +13,16 @@ pub(crate) enum AnchorKind {
     ArcRecursive,
 }
 
+// Ordered maps: when a document ends, the values whose last reference a table holds are released
+// in the order of their anchors. A hash map would release them in an order that depends on the
+// thread's hash seed, which a user's `Drop` impls can observe (and which differs between the
+// first and a later call on a thread).
 #[derive(Default)]
 struct AnchorStore {
-    rc: HashMap<usize, Rc<dyn Any>>,
-    arc: HashMap<usize, Arc<dyn Any + Send + Sync>>,
-    rc_recursive: HashMap<usize, Rc<dyn Any>>,
-    arc_recursive: HashMap<usize, Arc<dyn Any + Send + Sync>>,
+    rc: BTreeMap<usize, Rc<dyn Any>>,
+    arc: BTreeMap<usize, Arc<dyn Any + Send + Sync>>,
+    rc_recursive: BTreeMap<usize, Rc<dyn Any>>,
+    arc_recursive: BTreeMap<usize, Arc<dyn Any + Send + Sync>>,
 }
 
 #[derive(Default)]
